@@ -36,6 +36,9 @@ Section ExprInd.
   Hypothesis HCall : forall f args, Forall P args -> P (ECall f args).
   Hypothesis HIdx : forall a i, P a -> P i -> P (EIndex a i).
   Hypothesis HSl : forall a, P a -> P (ESliceAll a).
+  Hypothesis HVarK : forall x k t, P (EVarK x k t).
+  Hypothesis HSel : forall x f k t, P (ESel x f k t).
+  Hypothesis HConst : forall x cv, P (EConst x cv).
   Fixpoint expr_ind' (e : expr) : P e :=
     match e with
     | EIdent x t => HId x t
@@ -51,6 +54,9 @@ Section ExprInd.
                          end) args)
     | EIndex a i => HIdx a i (expr_ind' a) (expr_ind' i)
     | ESliceAll a => HSl a (expr_ind' a)
+    | EVarK x k t => HVarK x k t
+    | ESel x f k t => HSel x f k t
+    | EConst x v => HConst x v
     end.
 End ExprInd.
 
@@ -70,6 +76,32 @@ Proof.
   - intros H. apply prim_eqb_eq in H. congruence.
 Qed.
 
+Lemma vkind_eqb_eq a b : vkind_eqb a b = true -> a = b.
+Proof. destruct a, b; simpl; try discriminate; auto. intros H. apply String.eqb_eq in H. congruence. Qed.
+Lemma fl_eqb_eq a b : fl_eqb a b = true -> a = b.
+Proof.
+  destruct a as [|x|[pn pd]], b as [|y|[qn qd]]; simpl; try discriminate; auto.
+  - intros H. apply Bool.eqb_prop in H. congruence.
+  - intros H. apply andb_true_iff in H as [H1 H2]. apply Z.eqb_eq in H1. apply Pos.eqb_eq in H2. congruence.
+Qed.
+Lemma value_eqb_eq a b : value_eqb a b = true -> a = b.
+Proof.
+  destruct a, b; simpl; try discriminate; intros H.
+  - apply Z.eqb_eq in H. congruence.
+  - apply fl_eqb_eq in H. congruence.
+  - apply String.eqb_eq in H. congruence.
+  - apply String.eqb_eq in H. congruence.
+  - apply Bool.eqb_prop in H. congruence.
+  - apply (list_eqb_eq Z.eqb Z.eqb_eq) in H. congruence.
+  - apply Z.eqb_eq in H. congruence.
+  - apply andb_true_iff in H as [H1 H2]. apply Nat.eqb_eq in H1. subst.
+    destruct o as [a|], o0 as [b|]; try discriminate; [|reflexivity].
+    apply (list_eqb_eq Z.eqb Z.eqb_eq) in H2. congruence.
+  - assert (E : forall p q : Z * string, Z.eqb (fst p) (fst q) && String.eqb (snd p) (snd q) = true <-> p = q).
+    { intros [a b] [c d]; simpl. rewrite andb_true_iff, Z.eqb_eq, String.eqb_eq. split; [intros [-> ->]; reflexivity|intros H0; inversion H0; auto]. }
+    apply (list_eqb_eq _ E) in H. congruence.
+Qed.
+
 Lemma expr_eqb_eq : forall a b, expr_eqb a b = true -> a = b.
 Proof.
   induction a using expr_ind'; intros b Hb; destruct b; simpl in Hb; try discriminate.
@@ -85,6 +117,11 @@ Proof.
     apply andb_true_iff in H2 as [H2 H3]. f_equal; auto.
   - apply andb_true_iff in Hb as [H1 H2]. f_equal; auto.
   - f_equal; auto.
+  - apply andb_true_iff in Hb as [H1 H3]. apply andb_true_iff in H1 as [H1 H2].
+    apply String.eqb_eq in H1. apply vkind_eqb_eq in H2. apply ty_eqb_eq in H3. congruence.
+  - apply andb_true_iff in Hb as [H1 H4]. apply andb_true_iff in H1 as [H1 H3]. apply andb_true_iff in H1 as [H1 H2].
+    apply String.eqb_eq in H1. apply String.eqb_eq in H2. apply vkind_eqb_eq in H3. apply ty_eqb_eq in H4. congruence.
+  - apply andb_true_iff in Hb as [H1 H2]. apply String.eqb_eq in H1. apply value_eqb_eq in H2. congruence.
 Qed.
 
 (* ---------- evaluation of argument lists ---------- *)
@@ -164,12 +201,19 @@ Lemma prim_apply_typed p vs v t :
 Proof.
   destruct p; simpl;
     repeat (let x := fresh "x" in destruct vs as [|x vs]; simpl; try discriminate; try destruct x; simpl; try discriminate);
-    intros H1 H2; inversion H1; inversion H2; reflexivity.
+    intros H1 H2;
+    repeat match goal with
+           | H : context [if ?c then _ else _] |- _ => destruct c
+           | H : option_map _ ?x = Some _ |- _ => destruct x; simpl in H
+           end; try discriminate;
+    inversion H1; inversion H2; reflexivity.
 Qed.
 
-Lemma index_apply_typed a i v : index_apply a i = Some (RVal v) -> vty v = TInt.
+Definition index_result_ty (a : value) : ty := match a with VMap _ => TString | _ => TInt end.
+Lemma index_apply_typed a i v : index_apply a i = Some (RVal v) -> vty v = index_result_ty a.
 Proof.
-  destruct a, i; simpl; try discriminate; intros H; inversion H as [H']; clear H;
+  destruct a as [| | | | | | |n [l|]|m], i; simpl; try discriminate; intros H; inversion H as [H']; clear H;
+    try reflexivity;
     destruct (_ <? 0)%Z; try discriminate;
     match type of H' with context [match ?x with _ => _ end] => destruct x end; try discriminate; inversion H'; reflexivity.
 Qed.
@@ -201,7 +245,7 @@ Proof.
       assert (t0 = TBool) as ->.
       { unfold binop_type in Ht. destruct (negb (ty_eqb ta tb)); [discriminate|]. destruct ta; congruence. }
       simpl in Hv. destruct (evalS en e1 h) as [[[v1|] h1]|]; simpl in Hv; try discriminate.
-      destruct v1 as [| | | |[]| |]; try discriminate.
+      destruct v1 as [| | | |[]| | | |]; try discriminate.
       * destruct (evalS en e2 h1) as [[[v2|] h2]|]; simpl in Hv; try discriminate.
         destruct v2; simpl in Hv; try discriminate. inversion Hv; reflexivity.
       * inversion Hv; reflexivity.
@@ -209,7 +253,7 @@ Proof.
       assert (t0 = TBool) as ->.
       { unfold binop_type in Ht. destruct (negb (ty_eqb ta tb)); [discriminate|]. destruct ta; congruence. }
       simpl in Hv. destruct (evalS en e1 h) as [[[v1|] h1]|]; simpl in Hv; try discriminate.
-      destruct v1 as [| | | |[]| |]; try discriminate.
+      destruct v1 as [| | | |[]| | | |]; try discriminate.
       * inversion Hv; reflexivity.
       * destruct (evalS en e2 h1) as [[[v2|] h2]|]; simpl in Hv; try discriminate.
         destruct v2; simpl in Hv; try discriminate. inversion Hv; reflexivity.
@@ -228,16 +272,21 @@ Proof.
     + simpl in Hv. inversion Hv; inversion Ht; subst. apply Hen.
     + destruct (prim_apply p vs) as [[w|]|] eqn:PA; simpl in Hv; try discriminate. inversion Hv; subst.
       eapply prim_apply_typed; [exact PA|exact Ht].
-  - simpl in Ht. assert (t0 = TInt) as ->.
-    { destruct (typeof e1) as [[]|]; try discriminate; destruct (typeof e2) as [[]|]; try discriminate; congruence. }
-    simpl in Hv. destruct (evalS en e1 h) as [[[v1|] h1]|]; simpl in Hv; try discriminate.
+  - simpl in Ht. simpl in Hv.
+    destruct (typeof e1) as [t1|] eqn:T1; [|discriminate].
+    destruct (evalS en e1 h) as [[[v1|] h1]|] eqn:E1; simpl in Hv; try discriminate.
+    pose proof (IHe1 _ _ _ _ eq_refl E1) as V1.
     destruct (evalS en e2 h1) as [[[v2|] h2]|]; simpl in Hv; try discriminate.
     destruct (index_apply v1 v2) as [[w|]|] eqn:IA; simpl in Hv; try discriminate. inversion Hv; subst.
-    eapply index_apply_typed; eauto.
+    rewrite (index_apply_typed _ _ _ IA).
+    destruct v1; simpl in *; destruct (typeof e2) as [[]|]; try discriminate; inversion Ht; reflexivity.
   - simpl in Hv. destruct (evalS en e h) as [[[v1|] h1]|] eqn:E; simpl in Hv; try discriminate.
-    assert (vty v1 = t0).
-    { simpl in Ht. destruct (typeof e) as [[]|] eqn:T; try discriminate; inversion Ht; subst; eapply IHe; eauto. }
-    destruct v1; simpl in Hv; try discriminate; inversion Hv; subst; first [assumption|reflexivity].
+    simpl in Ht. destruct (typeof e) as [te|] eqn:T; [|discriminate].
+    pose proof (IHe _ _ _ _ eq_refl E) as V1.
+    destruct v1 as [| | | | | | |n [l|]|m]; simpl in Hv; try discriminate; inversion Hv; subst; simpl in Ht; inversion Ht; reflexivity.
+  - simpl in *. inversion Ht; inversion Hv; subst. apply Hen.
+  - simpl in *. destruct (nilp en x); [discriminate|]. inversion Ht; inversion Hv; subst. apply Hen.
+  - simpl in *. inversion Ht; inversion Hv; subst. reflexivity.
 Qed.
 
 (* ---------- side-effect-free expressions: no events, result independent of the history ---------- *)
@@ -246,7 +295,7 @@ Definition pure_at (en : env) (e : expr) : Prop := exists r : option outcome, fo
 (* no opaque call anywhere: the common core of the purity notions of the tools *)
 Fixpoint no_opaque (e : expr) : bool :=
   match e with
-  | EIdent _ _ | ELit _ _ _ => true
+  | EIdent _ _ | ELit _ _ _ | EVarK _ _ _ | ESel _ _ _ _ | EConst _ _ => true
   | EParen x | EUnary _ x | ESliceAll x => no_opaque x
   | EBinary _ l r => no_opaque l && no_opaque r
   | EIndex a i => no_opaque a && no_opaque i
@@ -277,33 +326,33 @@ Proof.
     destruct r2 as [[v2|]|].
     + destruct o;
         try (match goal with |- pure_at _ (EBinary ?o _ _) => exists (binop_apply o v1 v2) end; intros h; simpl; rewrite H1; simpl; rewrite H2; reflexivity).
-      * destruct v1 as [| | | |[]| |];
+      * destruct v1 as [| | | |[]| | | |];
           try (exists None; intros h; simpl; rewrite H1; reflexivity).
         -- destruct v2; try (exists None; intros h; simpl; rewrite H1; simpl; rewrite H2; reflexivity).
            eexists (Some _); intros h; simpl; rewrite H1; simpl; rewrite H2; reflexivity.
         -- eexists (Some _); intros h; simpl; rewrite H1; reflexivity.
-      * destruct v1 as [| | | |[]| |];
+      * destruct v1 as [| | | |[]| | | |];
           try (exists None; intros h; simpl; rewrite H1; reflexivity).
         -- eexists (Some _); intros h; simpl; rewrite H1; reflexivity.
         -- destruct v2; try (exists None; intros h; simpl; rewrite H1; simpl; rewrite H2; reflexivity).
            eexists (Some _); intros h; simpl; rewrite H1; simpl; rewrite H2; reflexivity.
     + destruct o;
         try (exists (Some RPanic); intros h; simpl; rewrite H1; simpl; rewrite H2; reflexivity).
-      * destruct v1 as [| | | |[]| |];
+      * destruct v1 as [| | | |[]| | | |];
           try (exists None; intros h; simpl; rewrite H1; reflexivity).
         -- exists (Some RPanic); intros h; simpl; rewrite H1; simpl; rewrite H2; reflexivity.
         -- eexists (Some _); intros h; simpl; rewrite H1; reflexivity.
-      * destruct v1 as [| | | |[]| |];
+      * destruct v1 as [| | | |[]| | | |];
           try (exists None; intros h; simpl; rewrite H1; reflexivity).
         -- eexists (Some _); intros h; simpl; rewrite H1; reflexivity.
         -- exists (Some RPanic); intros h; simpl; rewrite H1; simpl; rewrite H2; reflexivity.
     + destruct o;
         try (exists None; intros h; simpl; rewrite H1; simpl; rewrite H2; reflexivity).
-      * destruct v1 as [| | | |[]| |];
+      * destruct v1 as [| | | |[]| | | |];
           try (exists None; intros h; simpl; rewrite H1; reflexivity).
         -- exists None; intros h; simpl; rewrite H1; simpl; rewrite H2; reflexivity.
         -- eexists (Some _); intros h; simpl; rewrite H1; reflexivity.
-      * destruct v1 as [| | | |[]| |];
+      * destruct v1 as [| | | |[]| | | |];
           try (exists None; intros h; simpl; rewrite H1; reflexivity).
         -- eexists (Some _); intros h; simpl; rewrite H1; reflexivity.
         -- exists None; intros h; simpl; rewrite H1; simpl; rewrite H2; reflexivity.
@@ -336,6 +385,10 @@ Proof.
     + exists (slice_all_apply v). intros h. simpl. rewrite Hr. reflexivity.
     + exists (Some RPanic). intros h. simpl. rewrite Hr. reflexivity.
     + exists None. intros h. simpl. rewrite Hr. reflexivity.
+  - eexists (Some _); intros h; reflexivity.
+  - exists (if nilp en x then Some RPanic else Some (RVal (vars en (x ++ "." ++ f) t))); intros h; simpl.
+    destruct (nilp en x); reflexivity.
+  - eexists (Some _); intros h; reflexivity.
 Qed.
 
 
